@@ -78,6 +78,9 @@ func TestC19Generate(t *testing.T) {
 	old, nl := 0, 0
 	nlSeqs := map[string]bool{}
 	for _, c := range cs {
+		if c.Stream != "product" { // the mixed stream is counted in TestC19OracleMixedForms
+			continue
+		}
 		cfg := c.Meta["cfg"].(c19Cfg)
 		if strings.ContainsAny(cfg.Styles, "nt") {
 			nl++
@@ -105,7 +108,7 @@ func TestC19Generate(t *testing.T) {
 	seen := map[string]bool{}
 	for _, c := range cs {
 		l := c.Hist.Sexp()
-		if seen[l] {
+		if seen[l] && c.Stream == "product" {
 			t.Fatalf("duplicate case %s", l)
 		}
 		seen[l] = true
@@ -173,5 +176,42 @@ func TestC19CommentLines(t *testing.T) {
 		if got := strings.Join(commentLines(in), "|"); got != want {
 			t.Errorf("%q: %q, want %q", in, got, want)
 		}
+	}
+}
+
+// Mixed preamble forms: every block reaches the doc comment of import "C" as its own lines.
+func TestC19OracleMixedForms(t *testing.T) {
+	ref := "var _ = C." + c19Ref + "\n"
+	var pre []string
+	for i, s := range []byte("olkmeKb") {
+		pre = append(pre, c19MixedBlock(s, i))
+	}
+	good := "package p\n// #include <one0.h>\n// #cgo LDFLAGS: -lrawline1\n/* #include <rawblock2.h> */\n/*\n#include <multi3.h>\nint f3(void);\n*/\n//\n/*\n#include <rawmulti5.h>\nint k5(void);\n*/\n/*\n#include <gap6.h>\n\nint h6(void);\n*/\nimport \"C\"\n" + ref
+	if v := C19Check(true, false, pre, nil, good); v != "" {
+		t.Fatalf("good mixed preamble rejected: %s", v)
+	}
+	bad := map[string]string{
+		"joined into one comment, raw blocks nested": "package p\n/*\n#include <one0.h>\n// #cgo LDFLAGS: -lrawline1\n/* #include <rawblock2.h>\n#include <multi3.h>\nint f3(void);\n\n#include <rawmulti5.h>\nint k5(void);\n#include <gap6.h>\n\nint h6(void);\n*/\nimport \"C\"\n" + ref,
+		"raw line block commented out":               strings.Replace(good, "// #cgo LDFLAGS: -lrawline1", "// // #cgo LDFLAGS: -lrawline1", 1),
+		"two blocks swapped":                         strings.Replace(strings.Replace(good, "// #include <one0.h>\n", "", 1), "/* #include <rawblock2.h> */\n", "/* #include <rawblock2.h> */\n// #include <one0.h>\n", 1),
+		"empty block becomes an empty line":          strings.Replace(good, "*/\n//\n/*", "*/\n\n/*", 1),
+		"last block detached":                        strings.Replace(good, "*/\nimport \"C\"", "*/\n\nimport \"C\"", 1),
+	}
+	for name, src := range bad {
+		if v := C19Check(true, false, pre, nil, src); v == "" {
+			t.Errorf("%s: accepted", name)
+		}
+	}
+	r := rand.New(rand.NewSource(3))
+	forms := map[string]bool{}
+	for _, c := range c19Mixed(r, "quick") {
+		cfg := c.Meta["cfg"].(c19Cfg)
+		if len(cfg.Pre) < 1 || len(cfg.Pre) > 5 || c.Stream != "mixed" {
+			t.Fatalf("mixed case with %d blocks in stream %s", len(cfg.Pre), c.Stream)
+		}
+		forms[cfg.Styles] = true
+	}
+	if len(forms) < 3905 {
+		t.Errorf("only %d distinct sequences of forms", len(forms))
 	}
 }
